@@ -3,6 +3,7 @@
 package zzverif
 
 import (
+	"reflect"
 	"context"
 	"encoding/json"
 	"fmt"
@@ -61,7 +62,7 @@ func runFree(cfg WorldCfg, body func(w *World)) {
 	resetGlobalContext()
 	chf_context.Init()
 	self := chf_context.GetSelf()
-	self.LocalRecordSequenceNumber = cfg.LocalSeq
+	reflect.ValueOf(self).Elem().FieldByName("LocalRecordSequenceNumber").SetUint(cfg.LocalSeq) // (by reflection: the harness must build whatever the counter's width)
 	var wg sync.WaitGroup
 	wg.Add(2)
 	rf.OpenServer(ctx, &wg)
